@@ -138,6 +138,18 @@ CLAIMED = {
         note=BASE_NOTE + 'float64 results compared with exact rationals within 1e-12; eval is modelled for the generated expression grammar (+ - * / unary -, literals), not arbitrary Python; pncexpr / mask_vals front-ends are not exercised.',
         technique='Lean 4 proof (structural induction on nested arrays; case analysis of predicates) + model/implementation correspondence + numpy.ma oracle',
         design='§7 C06'),
+    'C01': dict(
+        text=('Lean model of every structural operation (copy, slice, apply, subset, rename variable/dimension, insert/remove/'
+              'reorder dimension, stack, arithmetic, mask) as functions on files of nested arrays; theorems: tabulated, cell-mapped '
+              'and cell-zipped data always have the declared shape (any rank), mask() and insertDimension return well-formed '
+              'files, removeSingleton/reorderDimensions rebuild every variable in the shape of its new dimension tuple; together '
+              'with the shape theorems of C02 (selection), C03 (fiberwise) and C04 (concatenation). On every run random SEQUENCES '
+              'of 1-6 operations (incl. out-of-domain arguments) are executed on the real code and on the model and compared '
+              'completely after every step, and the well-formedness predicate is evaluated on every real intermediate file. '
+              'Two genuine defects repaired by fix: commits.'),
+        note=BASE_NOTE + 'a single WF-preservation theorem over ALL operations is not proved (slice/apply/stack are covered by their array-level shape theorems); interpDimension and eval are exercised in C17/C06, IOAPI-specific well-formedness in C10.',
+        technique='Lean 4 proof (shape lemmas by mutual structural induction) + model/implementation correspondence over operation sequences + well-formedness oracle',
+        design='§7 C01'),
 }
 
 NOT_YET = {}
